@@ -91,6 +91,8 @@ SparseGroups == <<
 MeshGroups == <<
   Grp("mesh1.set_nodes_vars", <<"n", "v", "i", "v">>, Meth(0), TRUE, TRUE),
   Grp("mesh1.get_nodes_vars", <<"n", "v", "i">>, Meth(1), FALSE, TRUE),
+  Grp("mesh1.index_get", <<"n", "v", "i">>, Meth(1), FALSE, TRUE),            \* mesh[node]      (Index<usize>)
+  Grp("mesh1.index_set", <<"n", "v", "i">>, Meth(0), TRUE, TRUE),             \* mesh[node][0] = x / mesh[node] = v  (IndexMut<usize>)
   Grp("mesh2.set_nodes_vars", <<"n", "n", "v", "i", "i", "v">>, Meth(0), TRUE, TRUE),
   Grp("mesh2.get_nodes_vars", <<"n", "n", "i", "i">>, Meth(1), FALSE, TRUE),
   Grp("mesh2.cross_section_xnode", <<"n", "n", "i">>, Meth(1), FALSE, TRUE),
@@ -186,7 +188,7 @@ Acc(g, t) ==
     [] g \in {"sparse.solve_cg", "sparse.solve_bicgstab", "sparse.solve_qmr", "sparse.solve_bicg"} ->
           t[1] = t[2] /\ t[3] = t[1] /\ t[4] = t[1]                                            \* (rows, cols, |b|, |x|)
     [] g = "mesh1.set_nodes_vars" -> t[3] < t[1] /\ t[4] = t[2]                                \* (nnodes, nvars, k, |v|)
-    [] g = "mesh1.get_nodes_vars" -> t[3] < t[1]
+    [] g \in {"mesh1.get_nodes_vars", "mesh1.index_get", "mesh1.index_set"} -> t[3] < t[1]
     [] g = "mesh2.set_nodes_vars" -> t[4] < t[1] /\ t[5] < t[2] /\ t[6] = t[3]                 \* (nx, ny, nvars, i, j, |v|)
     [] g = "mesh2.get_nodes_vars" -> t[3] < t[1] /\ t[4] < t[2]                                \* (nx, ny, i, j)
     [] g = "mesh2.cross_section_xnode" -> t[3] < t[1]
@@ -234,7 +236,7 @@ TriRecv == {"tri.add", "tri.sub", "tri.matvec", "tri.solve", "tri.index_get", "t
 SparseRecv == (NamesOf(SparseGroups) \ {"sparse.from_triplets"}) \cup {"sparse.col_index", "sparse.to_triplets", "sparse.to_dense", "sparse.transpose"}
 PolyRecv == {"poly.index_get", "poly.index_set", "poly.roots_f64", "poly.add", "poly.sub", "poly.mul", "poly.neg", "poly.mul_scalar", "poly.eval",
              "poly.derivative", "poly.derivative_n", "poly.derivative_at", "poly.polydiv", "poly.degree", "poly.clone"}
-Mesh1Recv == {"mesh1.set_nodes_vars", "mesh1.get_nodes_vars", "mesh1.get_interpolated_vars", "mesh1.trapezium", "mesh1.nodes"}
+Mesh1Recv == {"mesh1.set_nodes_vars", "mesh1.get_nodes_vars", "mesh1.index_get", "mesh1.index_set", "mesh1.get_interpolated_vars", "mesh1.trapezium", "mesh1.nodes"}
 RecvTy(g) == CASE g \in VecRecv -> "vec" [] g \in MatRecv -> "mat" [] g \in BandRecv -> "band" [] g \in TriRecv -> "tri"
                [] g \in SparseRecv -> "sparse" [] g \in PolyRecv -> "poly" [] g \in Mesh1Recv -> "mesh1" [] OTHER -> "none"
 Pr(prep, old) == [prep |-> prep, old |-> old]
